@@ -62,20 +62,18 @@ def run_one(crate, hs, t, extra=()):
 
 def parse(out):
     r = {"status": None, "failed": [], "checks": 0, "nfailed": 0, "covers_sat": 0, "covers_total": 0, "time": 0.0, "unwind_fail": False}
-    m = re.search(r"VERIFICATION:- (SUCCESSFUL|FAILED)", out)
-    if m:
-        r["status"] = m.group(1)
-    m = re.search(r"\*\* (\d+) of (\d+) failed", out)
-    if m:
-        r["nfailed"] = int(m.group(1))
-        r["checks"] = int(m.group(2))
-    m = re.search(r"\*\* (\d+) of (\d+) cover properties satisfied", out)
-    if m:
-        r["covers_sat"] = int(m.group(1))
-        r["covers_total"] = int(m.group(2))
-    m = re.search(r"Verification Time: ([0-9.]+)s", out)
-    if m:
-        r["time"] = float(m.group(1))
+    # a harness filter is a substring match: if it selected several harnesses, any failure counts
+    verdicts = re.findall(r"VERIFICATION:- (SUCCESSFUL|FAILED)", out)
+    if verdicts:
+        r["status"] = "FAILED" if "FAILED" in verdicts else "SUCCESSFUL"
+    for m in re.finditer(r"\*\* (\d+) of (\d+) failed", out):
+        r["nfailed"] += int(m.group(1))
+        r["checks"] += int(m.group(2))
+    for m in re.finditer(r"\*\* (\d+) of (\d+) cover properties satisfied", out):
+        r["covers_sat"] += int(m.group(1))
+        r["covers_total"] += int(m.group(2))
+    for m in re.finditer(r"Verification Time: ([0-9.]+)s", out):
+        r["time"] += float(m.group(1))
     for fm in re.finditer(r"Failed Checks: (.*)\n(?:\s*File: \"([^\"]*)\", line (\d+), in (\S+))?", out):
         desc = fm.group(1).strip()
         r["failed"].append({"desc": desc, "file": fm.group(2), "line": fm.group(3), "func": fm.group(4)})
